@@ -1196,6 +1196,11 @@ class Frame(object):
         if isinstance(base, ClassInfo):
             owner, raw = I.p.class_attr_def(base, a)
             if owner is None:
+                hook = I.hooks.get("class_getattr")
+                if hook is not None:
+                    r = hook(self, base, a, node)
+                    if r is not NotImplemented:
+                        return r
                 if a == "__name__":
                     return base.name
                 self.unsupported(node, "class attribute")
@@ -2111,6 +2116,14 @@ def lib_call(fr: Frame, dotted: str, args, kwargs, node):
         return I.new_term("set")
     if dotted in ("builtins.sorted", "builtins.set", "builtins.frozenset", "builtins.tuple") and len(args) >= 1:
         return Term(short, _t(args[0]))
+    if dotted == "builtins.next" and args and isinstance(args[0], AList) and not args[0].generic:
+        if args[0].items:
+            return args[0].items[0]
+        if len(args) > 1:
+            return args[1]
+        raise RaiseSig(AExc("StopIteration", [], {}))
+    if dotted == "builtins.iter" and len(args) == 1 and isinstance(args[0], (AList, ACollection)):
+        return args[0]
     if dotted == "builtins.enumerate":
         return Term("enumerate", _t(args[0]))
     if dotted == "builtins.dict":
@@ -2187,6 +2200,9 @@ def lib_call(fr: Frame, dotted: str, args, kwargs, node):
         return AStruct("SeqFeature", **f)
     if dotted == "re.compile" and args and isinstance(args[0], str):
         return AStruct("regex", pattern=args[0])
+    if dotted.startswith("Bio.Restriction."):
+        # a method of a concrete enzyme class: an uninterpreted library value
+        return Term(short, Term(dotted.split(".")[-2]), *[_t(a) for a in args])
     if dotted == "copy.copy" and len(args) == 1:
         v = args[0]
         if isinstance(v, dict):
